@@ -47,6 +47,7 @@ type accPlan struct {
 type idOp struct {
 	Add bool
 	K   int
+	Svc *svcPlan `json:",omitempty"` // non-nil: pool[K].AddService(a new service) — before, while or after the object is in the container
 }
 
 type idPlan struct {
@@ -202,7 +203,7 @@ func specLine(p idPlan, pool []*accessory.Accessory) string {
 			if len(s.Linked) > 0 {
 				var ix []string
 				for _, l := range s.Linked {
-					j := len(a.Services) // out of range
+					j := 999 // out of range, also after services were added later
 					for q, t := range a.Services {
 						if t == l {
 							j = q
@@ -217,9 +218,12 @@ func specLine(p idPlan, pool []*accessory.Accessory) string {
 		}
 	}
 	for _, o := range p.Ops {
-		if o.Add {
+		switch {
+		case o.Svc != nil:
+			fmt.Fprintf(&sb, " *%d:%d/-/-", o.K, len(makeSvc(*o.Svc).Characteristics))
+		case o.Add:
 			fmt.Fprintf(&sb, " +%d", o.K)
-		} else {
+		default:
 			fmt.Fprintf(&sb, " -%d", o.K)
 		}
 	}
@@ -260,6 +264,11 @@ func runPlan(p idPlan, pool []*accessory.Accessory) (string, *accessory.Containe
 	for _, o := range p.Ops {
 		if o.K >= len(pool) {
 			outs = append(outs, "noobj")
+			continue
+		}
+		if o.Svc != nil {
+			pool[o.K].AddService(makeSvc(*o.Svc))
+			outs = append(outs, "ok")
 			continue
 		}
 		if o.Add {
@@ -493,18 +502,25 @@ func genIDPlan(r *rand.Rand, maxAcc int) idPlan {
 		sort.Ints(order)
 	}
 	for _, k := range order {
-		p.Ops = append(p.Ops, idOp{true, k})
+		p.Ops = append(p.Ops, idOp{Add: true, K: k})
 	}
 	for r.Intn(3) == 0 && len(p.Ops) < n+12 {
 		switch r.Intn(3) {
 		case 0:
-			p.Ops = append(p.Ops, idOp{true, r.Intn(n)})
+			p.Ops = append(p.Ops, idOp{Add: true, K: r.Intn(n)})
 		case 1:
-			p.Ops = append(p.Ops, idOp{false, r.Intn(n)})
+			p.Ops = append(p.Ops, idOp{Add: false, K: r.Intn(n)})
 		default:
 			k := r.Intn(n)
-			p.Ops = append(p.Ops, idOp{false, k}, idOp{true, k})
+			p.Ops = append(p.Ops, idOp{Add: false, K: k}, idOp{Add: true, K: k})
 		}
+	}
+	// services the application adds later: to an object that is being served, that was refused, removed, or not added yet
+	for r.Intn(3) == 0 && len(p.Ops) < n+16 {
+		sp := genSvcPlan(r, 8)
+		sp.Linked, sp.Hidden, sp.Primary = nil, false, false
+		at := r.Intn(len(p.Ops) + 1)
+		p.Ops = append(p.Ops[:at:at], append([]idOp{{K: r.Intn(n), Svc: &sp}}, p.Ops[at:]...)...)
 	}
 	return p
 }
@@ -525,9 +541,9 @@ func checkC14(c *Ctx) {
 	c14ConcurrentJSON(c)
 	// ---------------- corpus: explicit id then automatic id (recorded behaviour: the automatic one is rejected)
 	corpus := []idPlan{
-		{Accs: []accPlan{{Ctor: 6, ID: 1}, {Ctor: 4}, {Ctor: 5}}, Ops: []idOp{{true, 0}, {true, 1}, {true, 2}}},
-		{Accs: []accPlan{{Ctor: 1}, {Ctor: 7, ID: 2}, {Ctor: 9}, {Ctor: 2, ID: 2}}, Ops: []idOp{{true, 0}, {true, 1}, {true, 2}, {true, 3}, {true, 2}, {false, 0}, {true, 0}}},
-		{Accs: []accPlan{{Ctor: 0, Type: 1, Extra: []svcPlan{{Maker: 0, NChars: 0}, {Maker: 7, Linked: []int{0, 1, 9}, Hidden: true}, {Maker: 13, Primary: true, Linked: []int{2}}}}}, Ops: []idOp{{true, 0}, {true, 0}}},
+		{Accs: []accPlan{{Ctor: 6, ID: 1}, {Ctor: 4}, {Ctor: 5}}, Ops: []idOp{{Add: true, K: 0}, {Add: true, K: 1}, {Add: true, K: 2}}},
+		{Accs: []accPlan{{Ctor: 1}, {Ctor: 7, ID: 2}, {Ctor: 9}, {Ctor: 2, ID: 2}}, Ops: []idOp{{Add: true, K: 0}, {Add: true, K: 1}, {Add: true, K: 2}, {Add: true, K: 3}, {Add: true, K: 2}, {Add: false, K: 0}, {Add: true, K: 0}}},
+		{Accs: []accPlan{{Ctor: 0, Type: 1, Extra: []svcPlan{{Maker: 0, NChars: 0}, {Maker: 7, Linked: []int{0, 1, 9}, Hidden: true}, {Maker: 13, Primary: true, Linked: []int{2}}}}}, Ops: []idOp{{Add: true, K: 0}, {Add: true, K: 0}}},
 	}
 	type cs struct {
 		id   string
@@ -597,11 +613,15 @@ func checkC14(c *Ctx) {
 		if strings.TrimSpace(string(body)) != string(plain) {
 			c.Violate("/accessories body differs from json.Marshal of the container", k.id, k.plan, trunc(string(plain), 300), trunc(string(body), 300))
 		}
-		strict := true
-		for q, ap := range k.plan.Accs {
-			for _, sp := range ap.Extra {
-				for _, l := range sp.Linked {
-					if l >= len(pool[q].Services) {
+		strict := true // unless a service links one that was never added to its accessory (that one's id stays 0)
+		for _, a := range pool {
+			for _, sv := range a.Services {
+				for _, l := range sv.Linked {
+					member := false
+					for _, t := range a.Services {
+						member = member || t == l
+					}
+					if !member {
 						strict = false
 					}
 				}
